@@ -34,6 +34,9 @@ type hcKindEval struct {
 type hcBinding struct {
 	kind map[ssa.Value]bool
 	typ  map[ssa.Value]bool
+	// bools: boolean parameters whose value at the call site is decided by the
+	// kind (`insertIf(kind != NullTypeKind, …)`)
+	bools map[ssa.Value]bool
 }
 
 type hcKindResult struct {
@@ -128,6 +131,10 @@ func (r *hcRun) boolValue(v ssa.Value, d int) (val, known bool) {
 		if x.Value != nil && x.Value.Kind() == constant.Bool {
 			return constant.BoolVal(x.Value), true
 		}
+	case *ssa.Parameter:
+		if b, ok := r.b.bools[x]; ok {
+			return b, true
+		}
 	case *ssa.UnOp:
 		if x.Op == token.NOT {
 			if b, ok := r.boolValue(x.X, d+1); ok {
@@ -195,7 +202,7 @@ func (r *hcRun) callResult(call *ssa.Call) (hcKindResult, bool) {
 	if callee == nil || len(callee.Blocks) == 0 || !dmInModule(callee) {
 		return hcKindResult{}, false
 	}
-	nb := hcBinding{kind: map[ssa.Value]bool{}, typ: map[ssa.Value]bool{}}
+	nb := hcBinding{kind: map[ssa.Value]bool{}, typ: map[ssa.Value]bool{}, bools: map[ssa.Value]bool{}}
 	bound := false
 	for i, p := range callee.Params {
 		if i >= len(cm.Args) {
@@ -207,6 +214,20 @@ func (r *hcRun) callResult(call *ssa.Call) (hcKindResult, bool) {
 		} else if r.e.isType(cm.Args[i], r.b) {
 			nb.typ[p] = true
 			bound = true
+		} else if bt, ok := p.Type().Underlying().(*types.Basic); ok && bt.Kind() == types.Bool {
+			// only a boolean that the kind decides makes the callee worth entering
+			// (a literal `true` / `false` argument does not)
+			before := r.res.usesKind
+			r.res.usesKind = false
+			v, known := r.boolValue(cm.Args[i], 0)
+			byKind := r.res.usesKind
+			r.res.usesKind = before || byKind
+			if known {
+				nb.bools[p] = v
+				if byKind {
+					bound = true
+				}
+			}
 		}
 	}
 	if !bound && (r.e.descend == nil || !r.e.descend(callee)) {
@@ -317,39 +338,41 @@ func hcKindCondOperands(blk *ssa.BasicBlock) map[ssa.Value]bool {
 		if !ok {
 			continue
 		}
-		var visit func(v ssa.Value, depth int)
-		visit = func(v ssa.Value, depth int) {
-			if depth > 6 {
-				return
-			}
-			switch x := v.(type) {
-			case *ssa.UnOp:
-				if x.Op == token.NOT {
-					visit(x.X, depth+1)
-				}
-			case *ssa.Phi:
-				for _, ed := range x.Edges {
-					visit(ed, depth+1)
-				}
-			case *ssa.BinOp:
-				if x.Op != token.EQL && x.Op != token.NEQ {
-					return
-				}
-				if _, ok := hcStrip(x.Y).(*ssa.Const); ok && hcIsTypeKind(hcStrip(x.X).Type()) {
-					out[hcStrip(x.X)] = true
-				} else if _, ok := hcStrip(x.X).(*ssa.Const); ok && hcIsTypeKind(hcStrip(x.Y).Type()) {
-					out[hcStrip(x.Y)] = true
-				}
-			case *ssa.Call:
-				// predicate helper applied to a kind
-				for _, a := range x.Common().Args {
-					if hcIsTypeKind(hcStrip(a).Type()) {
-						out[hcStrip(a)] = true
-					}
-				}
-			}
-		}
-		visit(t.Cond, 0)
+		hcKindOperandsOf(t.Cond, 0, out)
 	}
 	return out
+}
+
+// hcKindOperandsOf adds to out the kind-typed SSA values that the boolean v
+// compares with constants (or hands to a predicate helper).
+func hcKindOperandsOf(v ssa.Value, depth int, out map[ssa.Value]bool) {
+	if depth > 6 {
+		return
+	}
+	switch x := v.(type) {
+	case *ssa.UnOp:
+		if x.Op == token.NOT {
+			hcKindOperandsOf(x.X, depth+1, out)
+		}
+	case *ssa.Phi:
+		for _, ed := range x.Edges {
+			hcKindOperandsOf(ed, depth+1, out)
+		}
+	case *ssa.BinOp:
+		if x.Op != token.EQL && x.Op != token.NEQ {
+			return
+		}
+		if _, ok := hcStrip(x.Y).(*ssa.Const); ok && hcIsTypeKind(hcStrip(x.X).Type()) {
+			out[hcStrip(x.X)] = true
+		} else if _, ok := hcStrip(x.X).(*ssa.Const); ok && hcIsTypeKind(hcStrip(x.Y).Type()) {
+			out[hcStrip(x.Y)] = true
+		}
+	case *ssa.Call:
+		// predicate helper applied to a kind
+		for _, a := range x.Common().Args {
+			if hcIsTypeKind(hcStrip(a).Type()) {
+				out[hcStrip(a)] = true
+			}
+		}
+	}
 }
